@@ -212,7 +212,14 @@ func c13Run(c *core.Ctx) {
 			}
 			for _, eol := range []string{"\n", "\r\n"} {
 				for _, final := range []bool{true, false} {
-					runPos(build(rows, delim, eol, final), want, class)
+					doc := build(rows, delim, eol, final)
+					runPos(doc, want, class)
+					// spreadsheet exports start with a UTF-8 byte-order mark
+					// (not demanded when the first cell is quoted: the mark then hides
+					// the opening quote from encoding/csv, a limitation outside the statement)
+					if (eol == "\n" || final) && !strings.HasPrefix(rows[0][0], "\"") {
+						runPos(append([]byte{0xEF, 0xBB, 0xBF}, doc...), want, class+"+utf8-bom")
+					}
 				}
 			}
 		}
